@@ -473,6 +473,131 @@ fn cli_histories(tier: Tier, st: &mut Stats, only: Option<&Value>) {
     st.notes.insert(format!("command-line driver: {} runs over row histories of length 1-4 x chunk size 1-3 x persistence policy", runs));
 }
 
+
+/// a plugin chain that expands twice: the query's own grid section, then a grid section the configuration injects into every
+/// query (`b = [10, 20]`), expanded by a second grid-search plugin. Every batch over {plain, own grid of 2, own grid of 3,
+/// failing} of length 1-2 under per-run parallelism 1-3: one response per expanded query, each carrying its combination, the
+/// multiset equal to what the queries return alone
+fn chained_expansion(st: &mut Stats, only: Option<&Value>) {
+    let scratch = Scratch::new("c06chain");
+    let mut spec = AppSpec::simple(base_net());
+    spec.input_plugins = vec![json!({"type": "grid_search"}), json!({"type": "inject", "key": "grid_search", "value": "{\"b\": [10, 20]}", "format": "json"}), json!({"type": "grid_search"})];
+    let app = match spec.build(&scratch.path.join("app")) {
+        Ok(a) => a,
+        Err(e) => {
+            st.violation("harness", "app_build", 0, || e.clone(), || json!({"chained_expansion": true}));
+            return;
+        }
+    };
+    let kinds: Vec<(&str, Value, usize)> = vec![
+        ("plain", json!({"origin_vertex": 0, "destination_vertex": 4, "tag": "p"}), 2),
+        ("own_grid_of_two", json!({"origin_vertex": 0, "destination_vertex": 4, "tag": "g2", "grid_search": {"a": [1, 2]}}), 4),
+        ("own_grid_of_three", json!({"origin_vertex": 1, "destination_vertex": 4, "tag": "g3", "grid_search": {"a": [1, 2, 3]}}), 6),
+        ("failing", json!({"origin_vertex": 0, "destination_vertex": 4000, "tag": "f"}), 2),
+    ];
+    let key = |r: &Value| canon_json(&json!({"request": r.get("request"), "error": r.get("error").is_some(), "route": project(r)["route"]}));
+    let mut alone: Vec<Option<Vec<String>>> = vec![];
+    for (_, q, _) in kinds.iter() {
+        alone.push(guarded(|| app.run(vec![q.clone()], Some(&json!({"parallelism": 1})))).ok().and_then(|r| r.ok()).map(|rs| {
+            let mut v: Vec<String> = rs.iter().map(key).collect();
+            v.sort();
+            v
+        }));
+    }
+    let mut batches: Vec<Vec<usize>> = (0..kinds.len()).map(|i| vec![i]).collect();
+    for i in 0..kinds.len() {
+        for j in 0..kinds.len() {
+            batches.push(vec![i, j]);
+        }
+    }
+    for b in batches.iter() {
+        for par in 1..=3u64 {
+            let names: Vec<&str> = b.iter().map(|i| kinds[*i].0).collect();
+            if let Some(o) = only {
+                if o.get("batch") != Some(&json!(names)) {
+                    continue;
+                }
+            }
+            st.evaluations += 1;
+            st.transitions += 1;
+            st.traces += 1;
+            st.states += 1;
+            if b.len() >= 2 {
+                st.nontrivial += 1;
+            }
+            let batch: Vec<Value> = b.iter().enumerate().map(|(pos, i)| {
+                let mut q = kinds[*i].1.clone();
+                q["position"] = json!(pos);
+                q
+            }).collect();
+            let comp = "batch_histories.chained_expansion".to_string();
+            let case = || json!({"chained_expansion": true, "batch": names, "run_parallelism": par, "queries": batch});
+            let rs = match guarded(|| app.run(batch.clone(), Some(&json!({"parallelism": par}))).map_err(|e| e.to_string())) {
+                Err(p) => {
+                    st.violation(&comp, "no_panic", b.len() as u64, || p.clone(), case);
+                    continue;
+                }
+                Ok(Err(e)) => {
+                    st.violation(&comp, "run_returns_responses", b.len() as u64, || e.clone(), case);
+                    continue;
+                }
+                Ok(Ok(r)) => r,
+            };
+            let want: usize = b.iter().map(|i| kinds[*i].2).sum();
+            if rs.len() != want {
+                st.violation(&comp, "one_response_per_expanded_query", b.len() as u64, || format!("{} responses for {} expanded queries: {}", rs.len(), want, serde_json::to_string(&rs.iter().map(|r| json!({"request": r.get("request"), "error": r.get("error")})).collect::<Vec<_>>()).unwrap_or_default().chars().take(600).collect::<String>()), case);
+                continue;
+            }
+            // every combination once: (position, a, b) of the requests
+            let mut combos: Vec<String> = rs.iter().map(|r| format!("{}/{}/{}", r["request"]["position"], r["request"]["a"], r["request"]["b"])).collect();
+            combos.sort();
+            let mut wanted: Vec<String> = vec![];
+            for (pos, i) in b.iter().enumerate() {
+                let own: Vec<Value> = match kinds[*i].1.get("grid_search") {
+                    Some(g) => g["a"].as_array().cloned().unwrap_or_default(),
+                    None => vec![Value::Null],
+                };
+                for a in own.iter() {
+                    for bb in [10, 20] {
+                        wanted.push(format!("{}/{}/{}", pos, a, bb));
+                    }
+                }
+            }
+            wanted.sort();
+            if combos != wanted {
+                st.violation(&comp, "each_response_carries_its_request", b.len() as u64, || format!("combinations answered {:?}, expected {:?}", combos, wanted), case);
+                continue;
+            }
+            // equal to the queries alone (positions aside)
+            let strip = |r: &Value| {
+                let mut r = r.clone();
+                if let Some(o) = r.get_mut("request").and_then(|q| q.as_object_mut()) {
+                    o.remove("position");
+                }
+                key(&r)
+            };
+            let mut got: Vec<String> = rs.iter().map(strip).collect();
+            got.sort();
+            let mut exp: Vec<String> = vec![];
+            let mut known = true;
+            for i in b.iter() {
+                match &alone[*i] {
+                    Some(v) => exp.extend(v.iter().cloned()),
+                    None => known = false,
+                }
+            }
+            exp.sort();
+            if !known {
+                st.violation(&comp, "run_returns_responses", b.len() as u64, || "a query of the batch could not be run alone".to_string(), case);
+            } else if got == exp {
+                st.pass("chained_expansion_equals_queries_alone");
+            } else {
+                st.violation(&comp, "multiset_equals_queries_alone", b.len() as u64, || format!("batch gives {:?}, the queries alone give {:?}", got, exp).chars().take(900).collect::<String>(), case);
+            }
+        }
+    }
+}
+
 pub fn run(tier: Tier) -> i32 {
     let info = RunInfo::new("C06", tier);
     let mut st = Stats::new();
@@ -506,6 +631,7 @@ pub fn run(tier: Tier) -> i32 {
     };
     load_balancing(tier, &mut st);
     cli_histories(tier, &mut st, None);
+    chained_expansion(&mut st, None);
     st.sample(3, || json!({"load_balancing": {"weights": [null, 5.0, 0.0, 2.0], "parallelism": 3}}));
     if alive {
         if let Err(e) = schedules(tier, &mut st, &mut bounds) {
@@ -521,7 +647,7 @@ pub fn run(tier: Tier) -> i32 {
     finish(
         &info,
         st,
-        "(a) state = one ordered batch (length 1-3/4 over 7 query kinds: two valid, unreachable, malformed, input-plugin failure, grid search expanding to 2, iteration-limit) x configured parallelism 1-4 x per-run override x balancer {none, haversine, custom} x persistence policy {configured persist / discard} x {run states persist, run states discard, run states nothing}, run through the real CompassApp::run with free-running rayon; oracle = multiset of projected responses equals the union of what each query returns alone; (b) state = one weight vector over {absent,0,1,2,5}^n x parallelism 1-4 through apply_load_balancing_policy; (c) state = one complete schedule of the worker pools (E3), each task's returned responses judged; non-trivial = batch of >= 2 queries / >= 2 queries and >= 2 bins / schedule with a preemption",
+        "(a) state = one ordered batch (length 1-3/4 over 7 query kinds: two valid, unreachable, malformed, input-plugin failure, grid search expanding to 2, iteration-limit) x configured parallelism 1-4 x per-run override x balancer {none, haversine, custom} x persistence policy {configured persist / discard} x {run states persist, run states discard, run states nothing}, run through the real CompassApp::run with free-running rayon; oracle = multiset of projected responses equals the union of what each query returns alone; (a') the same for a plugin chain that expands twice (own grid section, then an injected one): batches of length 1-2 over {plain, own grid of 2 / 3, failing} under per-run parallelism 1-3; (b) state = one weight vector over {absent,0,1,2,5}^n x parallelism 1-4 through apply_load_balancing_policy; (c) state = one complete schedule of the worker pools (E3), each task's returned responses judged; non-trivial = batch of >= 2 queries / >= 2 queries and >= 2 bins / schedule with a preemption",
         true,
         Value::Object(bounds),
         vec![
@@ -541,7 +667,9 @@ pub fn replay(case: &Value) -> i32 {
             // every per-run override and both policies; the whole load-balancing enumeration, which takes a second)
             let c = if case.get("case").is_some() { &case["case"] } else { case };
             let mut st = Stats::new();
-            if c.get("cli").is_some() {
+            if c.get("chained_expansion").is_some() {
+                chained_expansion(&mut st, Some(c));
+            } else if c.get("cli").is_some() {
                 cli_histories(Tier::Thorough, &mut st, Some(c));
             } else if c.get("batch").is_some() {
                 batch_histories(Tier::Thorough, &mut st, Some(c));
